@@ -27,6 +27,7 @@ def observe_tree(tree, cmap, full=True):
             num_children=[int(x) for x in tree.num_children_array],
             sites=[int(s.id) for s in tree.sites()],
             samples=[[int(v) for v in tree.samples(u)] for u in range(N)],
+            vsamples=[int(v) for v in tree.samples(tree.virtual_root)],
         )
     return ob
 
